@@ -45,10 +45,11 @@ Verdict(e) ==
   ELSE IF e.route = "rendered" /\ e.site = "string_default" /\ e.t = <<>> /\ e.ok /\ e.rest THEN "dev:F-C02a"
   ELSE IF e.route = "sql" /\ ~e.ok THEN "the SQL script cannot be read back (a literal ends early?)"
   ELSE IF e.route = "sql" /\ e.site \in NoteSites /\ ~SqlNeutral(e.stored) THEN "bare single quote inside the SQL literal"
-  ELSE IF ~e.ok THEN
-       (IF e.route = "rendered" /\ MultiLine(e.t) /\ e.site \in DriftSites THEN DriftId(e.site) ELSE "text breaks its literal: parse fails")
+  ELSE IF ~e.ok THEN "text breaks its literal: parse fails"
   ELSE IF e.stored # Expected(e) THEN
-       (IF e.route = "rendered" /\ MultiLine(e.t) /\ e.site \in DriftSites THEN DriftId(e.site) ELSE "stored text differs")
+       \* the known findings are accepted only in the exact form Lexis!AsBuiltDrift predicts
+       (IF e.route = "rendered" /\ MultiLine(e.t) /\ e.site \in DriftSites /\ e.stored = AsBuiltDrift(e.site, e.t) THEN DriftId(e.site)
+        ELSE "stored text differs")
   ELSE IF ~e.rest THEN "neighbouring elements altered"
   ELSE ""
 
